@@ -261,7 +261,8 @@ CHECKS["C18"] = dict(
           "under every restart subset; no panic; foreign session/curve rejected."),
     note=TB + "Partial: that the embedded 127k-gate circuit computes SHA-256(a xor b) is validated (Go Compute, harness evaluator "
               "and Lean evaluator vs crypto/sha256), not proved; round functions tied by oracle and source facts (no EC "
-              "arithmetic in Lean); crypto/elliptic trusted.")
+              "arithmetic in Lean), not byte-compared; Round2 canonicity assumes parity soundness of point decompression; "
+              "crypto/elliptic trusted.")
 
 CHECKS["C12"] = dict(
     category="proof", design_ref="DESIGN.md section 2 / C12",
